@@ -185,3 +185,18 @@ fn convert_error(e: std::fmt::Error) -> SchemaError {
 		e,
 	))
 }
+
+#[cfg(ten0_serde_avro_fast_verif)]
+impl SchemaMut {
+	/// Verification hook (H1): the parsing canonical form as text, produced by the very same
+	/// writer that feeds the fingerprint.
+	#[doc(hidden)]
+	pub fn verif_canonical_form(&self) -> Result<String, SchemaError> {
+		let mut state = WriteCanonicalFormState {
+			w: ErrorConversionWriter(String::new()),
+			named_type_written: vec![false; self.nodes.len()],
+		};
+		state.write_canonical_form(self, SchemaKey::from_idx(0))?;
+		Ok(state.w.0)
+	}
+}
